@@ -914,9 +914,19 @@ func (fr *Frame) evalCall(x *SCall, ctx *specCtx) SV {
 		f := arg(0)
 		n := arg(1)
 		return SV{Term: g.fdenotes(f, n), K: svBool}
-	case "f64": // f64(n): nearest float64 of integer n
+	case "f64": // f64(n): nearest float64 of integer n, or exact widening of a float32
 		n := arg(0)
+		if n.K == svGo {
+			if fb, ok := isFloat(n.T); ok {
+				if fb == 64 {
+					return n
+				}
+				return goSV(Val{T: types.Typ[types.Float64], S: "((_ to_fp 11 53) RNE " + n.Term + ")"})
+			}
+		}
 		return goSV(Val{T: types.Typ[types.Float64], S: g.intToFloat(n, 64)})
+	case "fsame": // identical floats (NaN is identical to NaN)
+		return SV{Term: "(= " + arg(0).Term + " " + arg(1).Term + ")", K: svBool}
 	case "strnum":
 		g.needStrNum = true
 		return SV{Term: "(str_num " + arg(0).Term + ")", K: svMath}
